@@ -200,6 +200,9 @@ func (vc *VC) flat(t types.Type) []comp {
 	case *types.TypeParam:
 		return []comp{{"", "Int"}}
 	}
+	if strings.Contains(fmt.Sprintf("%T", t.Underlying()), "opaqueType") {
+		return []comp{{"", "Int"}} // go/ssa internal types (range iterators, defer stacks): an opaque handle
+	}
 	panic(fmt.Sprintf("flat: unsupported type %v (%T)", t, t.Underlying()))
 }
 
